@@ -109,24 +109,36 @@ class PostCheck:
         m = o.msg
         if m is None or isinstance(m, PyC) or not z3.is_expr(m):
             return z3.BoolVal(False)
-        mv = asV(m)
-        if not mv.decl().name().startswith("py_format") or mv.num_args() < 3:
+        # the message must be the concatenation  prefix-literal-up-to-first-field + str(arg1) + literal + str(arg2) + ...  of the contract
+        import string
+        exp_parts = []
+        fields = list(string.Formatter().parse(post["message_prefix"]))
+        srcs = list(post["message_args"])
+        for lit, name, spec, conv in fields:
+            if lit:
+                exp_parts.append(lit)
+            if name is not None:
+                e = ast.parse(srcs.pop(0), mode="eval").body
+                ex = Exec(self.ctx, "spec", self.c.name)
+                st = St(env=dict(args))
+                ex.exc_sinks = [[]]
+                exp_parts.append(T.as_str_term(ex.ev(e, st)[0][0]))
+        got = T.str_parts(m)
+        want = T.str_parts(T.strcat(exp_parts))
+        if len(got) < len(want):
             return z3.BoolVal(False)
-        fmt = mv.arg(0)
-        rev = {v: k for k, v in T._STR_IDS.items()}
-        if fmt.decl().name() != "StrC" or not z3.is_int_value(fmt.arg(0)):
-            return z3.BoolVal(False)
-        text = rev.get(fmt.arg(0).as_long(), "")
-        if not text.startswith(post["message_prefix"]):
-            return z3.BoolVal(False)
-        exp = []
-        for src in post["message_args"]:
-            e = ast.parse(src, mode="eval").body
-            ex = Exec(self.ctx, "spec", self.c.name)
-            st = St(env=dict(args))
-            ex.exc_sinks = [[]]
-            exp.append(asV(ex.ev(e, st)[0][0]))
-        return z3.And(*[mv.arg(i + 1) == exp[i] for i in range(len(exp))])
+        goals = []
+        for i, w in enumerate(want):
+            g = got[i]
+            if isinstance(w, str):
+                last = (i == len(want) - 1)
+                if not isinstance(g, str) or not (g.startswith(w) if last else g == w):
+                    return z3.BoolVal(False)
+            else:
+                if isinstance(g, str):
+                    return z3.BoolVal(False)
+                goals.append(g == w)
+        return z3.And(*goals) if goals else z3.BoolVal(True)
 
 
 def whileloop(ctx, ex, s, p):
